@@ -160,9 +160,16 @@ def _zipped_literal(node):
         return None
     if node.func.id == "zip":
         seqs = [a if isinstance(a, (ast.Tuple, ast.List)) and not any(isinstance(e, ast.Starred) for e in a.elts) else None for a in node.args]
-        if any(q is None for q in seqs) or not 1 <= min(len(q.elts) for q in seqs) <= 24:
+        lits = [q for q in seqs if q is not None]
+        # a zipped operand that is not a display but a plain name / attribute / subscript (a list, a slice of one) contributes its
+        # elements by position: zip(("a", "b"), X) pairs "a" with X[0], "b" with X[1] (X is at least as long wherever the code is meant to
+        # pair every name)
+        others = [a for a, q in zip(node.args, seqs) if q is None]
+        if not lits or not all(isinstance(a, (ast.Name, ast.Attribute, ast.Subscript)) and _pure(a) for a in others) or not 1 <= min(len(q.elts) for q in lits) <= 24:
             return None
-        rows = [ast.Tuple(elts=[q.elts[i] for q in seqs], ctx=ast.Load()) for i in range(min(len(q.elts) for q in seqs))]
+        n = min(len(q.elts) for q in lits)
+        rows = [ast.Tuple(elts=[q.elts[i] if q is not None else ast.Subscript(value=copy.deepcopy(a), slice=ast.Constant(value=i), ctx=ast.Load())
+                                for a, q in zip(node.args, seqs)], ctx=ast.Load()) for i in range(n)]
     elif node.func.id == "enumerate" and len(node.args) <= 2:
         q = node.args[0]
         start = node.args[1].value if len(node.args) == 2 and isinstance(node.args[1], ast.Constant) and type(node.args[1].value) is int else (0 if len(node.args) == 1 else None)
